@@ -115,6 +115,26 @@ def install_io(ex: Explorer) -> None:
         return coro(go)
     models.MODELS[asyncio.wait_for] = wait_for
 
+    def timeout_cm(I: Interp, cm: V) -> Any:
+        """`async with asyncio.timeout(t)`: the body runs under the deadline t; the deadline may
+        also pass before the body gets anywhere (TimeoutError at its first suspension point)"""
+        if isinstance(cm, VObj) and cm.tag == "timeout-cm":
+            t = cm.fields.get("t", NONE)
+
+            def enter() -> V:
+                I.ghost.setdefault("deadlines", []).append(t)
+                if t is not NONE and I.choose([z3.BoolVal(True)] * 2) == 1:
+                    I.ghost["timed_out"] = True
+                    I.raise_py(TimeoutError, "asyncio.timeout")
+                return NONE
+            return enter, (lambda exc: False)
+        return None
+    if not any(getattr(m, "__name__", "") == "timeout_cm" for m in models.WITH_MODELS):
+        models.WITH_MODELS.append(timeout_cm)
+    if asyncio.timeout not in models.MODELS:
+        models.MODELS[asyncio.timeout] = lambda I, a, k: VObj(
+            Stub, {"t": a[0] if a else k.get("delay", NONE)}, lazy=True, tag="timeout-cm")
+
     def shield(I: Interp, args: list[V], kwargs: dict[str, V]) -> V:
         aw = args[0]
         if isinstance(aw, VCoro):
